@@ -3,7 +3,7 @@ From Rimu Require Import Base Unicode Regex RegexAnalysis RegexParse Str Types T
   Frame FrameBlock FrameInst OptionsLemmas MiscLemmas MoreLemmas Plain TableFacts.
 
 (* every inline computation run by the block layer changes nothing but the diagnostic log *)
-Theorem C19_lift_only_logs : forall A (f : session -> I A) s a s', lift f s = Ok (a, s') -> exists l, s' = set_log s l.
+Theorem C19_lift_only_logs : forall A (f : ienv -> I A) s a s', lift f s = Ok (a, s') -> exists l, s' = set_log s l.
 Proof. intros A f. exact (log_only_lift f). Qed.
 Print Assumptions C19_lift_only_logs.
 
